@@ -60,7 +60,10 @@ def run(model: Model, rep, tier: str) -> None:
                  ("C16-O5", "serial / threaded branches complementary in "
                             "nthreads"),
                  ("C16-O6", "every started thread joined before the buffer "
-                            "is read")):
+                            "is read"),
+                 ("C16-O7", "an integrand that raises makes the threaded "
+                            "assembly raise like the serial one (no worker's "
+                            "failure is dropped)")):
         rep.rule(r, t)
     fn = model.func(BF, "BilinearForm._assemble")
     line = fn.lineno
@@ -233,6 +236,39 @@ def run(model: Model, rep, tier: str) -> None:
                          f"joined before the buffer is flattened and "
                          f"returned: the result can be read while workers "
                          f"still write", line)
+    # ---- O7: a failing pair.  threading.Thread swallows the exception of
+    # its target: the worker's remaining slots keep the zeros they were
+    # allocated with and the caller gets a matrix where serial assembly
+    # raises.  Run with an integrand that raises for one pair.
+    for sizes in ({"u": 2, "v": 3},):
+        npairs = sizes["u"] * sizes["v"]
+        for fail in ("u.basis[0];v.basis[0];w", "u.basis[1];v.basis[2];w"):
+            ser = Run(model, "BilinearForm", "_assemble", sizes, nthreads=0,
+                      fail_tags=fail)
+            if ser.raised is None:
+                raise AnalysisError("serial run with a failing integrand "
+                                    "does not raise: model out of date")
+            for nth in (1, 2, npairs):
+                for sched in ("eager", "late"):
+                    r = Run(model, "BilinearForm", "_assemble", sizes,
+                            nthreads=nth, schedule=sched, fail_tags=fail)
+                    cons = f"worker-failure[{fail},nthreads={nth}," \
+                           f"{sched}]"
+                    dropped = [e for e in r.events
+                               if e[0] == "thread-raised"]
+                    if r.raised is not None:
+                        rep.ok("C16-O7", cons, "the failure of a worker "
+                               "reaches the caller")
+                    else:
+                        rep.fail("C16-O7", F, "BilinearForm._assemble",
+                                 cons,
+                                 f"the integrand raises for the pair "
+                                 f"({fail}); serial assembly raises, but "
+                                 f"with nthreads={nth} the exception dies "
+                                 f"with its worker thread "
+                                 f"({len(dropped)} dropped) and a matrix is "
+                                 f"returned whose unwritten slots are zero",
+                                 line)
     rep.require_min("C16-O1", 10)
     rep.require_min("C16-O6", 10)
 
@@ -245,7 +281,15 @@ _THR = """            threads = [
                 ) for ix in np.array_split(indices, self.nthreads, axis=0)
             ]
 """
+_BF = "skfem/assembly/form/bilinear_form.py"
 MUTANTS = [
+    ("worker failures are collected but never re-raised",
+     (_BF, "            if len(errors) > 0:\n                raise errors[0]\n",
+      ""), "C16-O7"),
+    ("workers run the kernel directly again (exceptions die with the "
+     "thread)",
+     (_BF, "                    target=worker,",
+      "                    target=self._threaded_kernel,"), "C16-O7"),
     ("indexing a field hands out a view of the shared basis array",
      ("skfem/element/discrete_field.py", "        return np.array(self)[key]",
       "        return np.asarray(self)[key]"), "C16-O3"),
@@ -311,6 +355,9 @@ MUTANTS = [
      "C16-O6"),
 ]
 TWINS = [
+    ("worker failures re-raised with a truth test of the list",
+     (_BF, "            if len(errors) > 0:\n                raise errors[0]\n",
+      "            if errors:\n                raise errors[0]\n")),
     ("indexing a field copies after selecting",
      ("skfem/element/discrete_field.py", "        return np.array(self)[key]",
       "        return np.asarray(self)[key].copy()")),
